@@ -702,6 +702,11 @@ func GenE2(prop string, seed uint64) *Program {
 			prog.Feeds = append(prog.Feeds, FeedSpec{ID: "nd", Handle: r.Intn(prog.NHandles), Bucket: true, NoDone: true})
 		}
 		w := weights{"Set": 6, "Add": 2, "Delete": 3, "Incr": 2, "WriteCas": 2, "GetRaw": 3, "Touch": 3, "Update": 2, "SetXattrs": 1, "WriteSubDoc": 1}
+		if r.Chance(40) {
+			// design documents are put, queried and deleted while the store is being shut down
+			prog.Setup = append(prog.Setup, Op{Kind: "PutDDoc", Coll: 0, Key: "dd1", Xattrs: map[string]string{"v1": "F1", "v2": "F0"}})
+			w = w.with("PutDDoc", 4, "DelDDoc", 2, "View", 4)
+		}
 		sleepFirst := r.Chance(60)
 		for t := 0; t < 1+r.Intn(2); t++ {
 			var ops []Op
